@@ -525,10 +525,16 @@ func (w *walker) enter(s *state, fr *frame, b *ssa.BasicBlock) bool {
 			}
 			if !back {
 				sym := mk(fmt.Sprintf("φL%d.%d", loopOrdinal(b), k))
-				if v.Op == "ref" {
-					sym = v // references stay references (loop-invariant pointers)
+				invariant := true
+				for _, e := range phi.Edges {
+					if e != phi.Edges[idx] && e != ssa.Value(phi) {
+						invariant = false
+					}
+				}
+				if v.Op == "ref" && invariant {
+					sym = v // loop-invariant pointer
 				} else {
-					s.events = append(s.events, fmt.Sprintf("loop L%d: %s starts as %s", loopOrdinal(b), sym, v))
+					s.events = append(s.events, fmt.Sprintf("loop L%d: %s starts as %s", loopOrdinal(b), sym, s.content(v)))
 				}
 				fr.env[phi] = sym
 			}
@@ -679,6 +685,9 @@ func (w *walker) binop(s *state, op token.Token, x, y *Term, typ types.Type) *Te
 
 // nonNilByConstruction: errors made by fmt.Errorf / errors.New.
 func nonNilByConstruction(t *Term) bool {
+	if t.Op == "errvar" {
+		return true
+	}
 	if t.Op == "err" && len(t.Args) == 1 {
 		switch t.Args[0].Op {
 		case "fmt.Errorf", "errors.New":
@@ -984,6 +993,13 @@ func (w *walker) run(s *state) {
 			case token.MUL:
 				l := w.deref(v)
 				c := s.hget(l)
+				if g, ok := x.X.(*ssa.Global); ok && load.IsModule(g.Pkg.Pkg) && c.Op != "ref" && len(c.Args) == 0 {
+					if types.Identical(g.Type().(*types.Pointer).Elem(), types.Universe.Lookup("error").Type()) {
+						// package-level error values are assigned once, in the package
+						// initialiser, from fmt.Errorf/errors.New (C18: never written later)
+						c = mk("errvar", c)
+					}
+				}
 				fr.env[x] = c
 			case token.NOT:
 				fr.env[x] = not(v)
